@@ -24,7 +24,7 @@ RULE = ("per tree (chains and bushes, <= 3 levels) the full product of "
         "per-parent entries {absent, [], [g0,g1], [g2,g3], [g1,g2,g1] "
         "(duplicates), [g3,x] (x unknown to the reference), [g0]} x all 16 "
         "subsets of the 4 reference genes as query gene set (+/- x) x 2 "
-        "column orders x min_markers {1,2,3,10} x flatten; error/success and "
+        "column orders x min_markers {0,1,2,3,10} x flatten; error/success and "
         "the per-parent gene sets compared with the statement-as-code; "
         "name-wise pairing read from the cache file.  distinct_nontrivial = "
         "distinct (tree, table, query set, min_markers, flatten) whose model "
@@ -70,7 +70,7 @@ def trees(tier):
 
 def bounds(tier):
     return {'trees': [t[0] for t in trees(tier)], 'entries': len(ENTRIES),
-            'min_markers': [1, 2, 3, 10], 'query_subsets': 16,
+            'min_markers': [0, 1, 2, 3, 10], 'query_subsets': 16,
             'max_product': 2500 if tier == 'quick' else 25000}
 
 
